@@ -96,9 +96,20 @@ def make_class(name, base, gs=0, ss=0, red=0, gna=0, slots=0, first=False):
             except TypeError:
                 return sup()
         ns["__getstate__"] = __getstate__
+    elif gs == 4:      # remote-aware, non-dict state (needs ss)
+        def __getstate__(self, remote=False):
+            LOG.append((getattr(self, "tag", None), "gs", bool(remote)))
+            d = _default_state(self)
+            return ("nd", tuple(sorted(d.items())), bool(remote))
+        ns["__getstate__"] = __getstate__
     if ss:
         def __setstate__(self, state):
-            _default_restore(self, state)
+            if isinstance(state, tuple) and len(state) == 3 and state[0] == "nd":
+                for k, v in state[1]:
+                    setattr(self, k, v)
+                self.seen_remote = state[2]
+            else:
+                _default_restore(self, state)
             LOG.append((getattr(self, "tag", None), "ss"))
             try:
                 self.via_ss = True
@@ -147,7 +158,7 @@ def chain_spec(levels, marker):
         if red:
             has_remote = False
             break
-        if gs == 2:
+        if gs in (2, 4):
             if blocked:
                 inconsistent = True
                 break
